@@ -154,7 +154,10 @@ def _work(item):
         warnings.simplefilter("ignore")
         S = F.build(spec)
         n, v = check_complex(S, _CAP)
-    return {"n": n, "viols": [(m, msg, ori, kind, spec) for m, msg, ori in v]}
+        F.detour(S)  # a maximal simplex removed and re-added under its ID: same complex, different history
+        n2, v2 = check_complex(S, 4)
+        v = list(v) + [(m, "[same object re-evaluated after removing and re-adding a maximal simplex] " + msg, ori) for m, msg, ori in v2]
+    return {"n": n + n2, "viols": [(m, msg, ori, kind, spec) for m, msg, ori in v]}
 
 
 def family(tier):
